@@ -443,9 +443,11 @@ func TestVerifC13(t *testing.T) {
 		pre := c13clone(m)
 		desc := c13str(pre)
 		var err error
+		badRef := ""
 		if p := vRecover(func() {
 			err = Expand(m, DefaultExpandOptions())
 			if err == nil {
+				badRef = c13setRefs(pre, m)
 				err = ResolveSets(m)
 			}
 		}); p != "" {
@@ -455,6 +457,11 @@ func TestVerifC13(t *testing.T) {
 		}
 		if err != nil {
 			ck.Case(false)
+			continue
+		}
+		if badRef != "" {
+			ck.Case(true)
+			ck.Failf(desc, "%s\nexpanded: %s", badRef, c13str(m))
 			continue
 		}
 		sets := c13resolved(m)
@@ -1013,4 +1020,43 @@ func c15cloneSets(sets []*TokenSet) []*TokenSet {
 		out = append(out, cl(s))
 	}
 	return out
+}
+
+// c13setRefs checks that set operands still name the nonterminals they named before the expansion
+// (Expand renumbers nonterminals when it moves extracted ones next to their first use).
+func c13setRefs(pre, m *Model) string {
+	nt := len(pre.Terminals)
+	var cmp func(a, b *TokenSet, depth int) string
+	cmp = func(a, b *TokenSet, depth int) string {
+		if a.Kind != b.Kind || len(a.Sub) != len(b.Sub) || depth > 8 {
+			return ""
+		}
+		if len(a.Sub) == 0 {
+			switch {
+			case a.Symbol < nt && b.Symbol != a.Symbol:
+				return fmt.Sprintf("a set operand over terminal %d refers to symbol %d after the expansion", a.Symbol, b.Symbol)
+			case a.Symbol >= nt && (b.Symbol < nt || b.Symbol-nt >= len(m.Nonterms) || m.Nonterms[b.Symbol-nt].Name != pre.Nonterms[a.Symbol-nt].Name):
+				got := "a terminal"
+				if b.Symbol >= nt && b.Symbol-nt < len(m.Nonterms) {
+					got = m.Nonterms[b.Symbol-nt].Name
+				}
+				return fmt.Sprintf("a set operand over nonterminal %s refers to %s after the expansion", pre.Nonterms[a.Symbol-nt].Name, got)
+			}
+			return ""
+		}
+		for i := range a.Sub {
+			if s := cmp(a.Sub[i], b.Sub[i], depth+1); s != "" {
+				return s
+			}
+		}
+		return ""
+	}
+	for k := range pre.Sets {
+		if k < len(m.Sets) {
+			if s := cmp(pre.Sets[k], m.Sets[k], 0); s != "" {
+				return s
+			}
+		}
+	}
+	return ""
 }
